@@ -36,12 +36,12 @@ Lemma proxy_monitor_accepts_model base secret secure origin_form host clock now 
   let r := proxy_sign_out mac base secret secure origin_form host now in
   proxy_holds mac {| po_base := base; po_secret := secret; po_secure := secure; po_origin_form := origin_form;
                      po_host := host; po_clock := clock; po_ts := now; po_status := p_status r;
-                     po_cleared := p_clears r; po_obs_base := l_base (p_loc r);
+                     po_cleared := p_clears r; po_live := p_sets_live r; po_calls := []; po_obs_base := l_base (p_loc r);
                      po_query := encode_query (l_params (p_loc r)); po_params := l_params (p_loc r) |} = true.
 Proof.
   intros Hne Hclk. cbv zeta. unfold proxy_holds, proxy_sign_out.
-  cbn [po_base po_secret po_secure po_origin_form po_host po_clock po_ts po_status po_cleared po_obs_base po_query po_params
-       p_status p_clears p_loc l_base l_params get_sign_out_url].
+  cbn [po_base po_secret po_secure po_origin_form po_host po_clock po_ts po_status po_cleared po_live po_calls po_obs_base po_query po_params
+       p_status p_clears p_sets_live p_asks p_loc l_base l_params get_sign_out_url].
   destruct (loc_fields mac base secret (url_string (proxy_scheme secure origin_form) host) now) as [E1 [E2 E3]].
   cbn [get_sign_out_url l_params] in E1, E2, E3. rewrite E1, E2, E3.
   rewrite !str_eqb_refl. cbn [map fst]. rewrite strs_eqb_refl. cbn [andb].
